@@ -22,7 +22,20 @@ type Case struct {
 	// phase 1 results (no validator installed)
 	libAccepts   bool
 	writeAccepts bool
-	spec         *specs.Spec
+	tree         gen.M // the base document; the case's document is rebuilt on demand (thorough: the documents do not fit in memory)
+}
+
+// doc returns the document of the case.
+func (c *Case) doc() any {
+	if c.Doc != nil {
+		return c.Doc
+	}
+	if len(c.Mutations) == 0 {
+		return c.tree
+	}
+	d := gen.Apply(c.tree, c.Mutations[0])
+	gen.RaiseVersion(d, c.Mutations)
+	return d
 }
 
 var sensitive = []string{"yes", "no", "on", "~", "null", "", " ", "0123", "0x1f", "1_000", "1e3", ".inf", "2001-12-14", " lead", "trail ", "a\tb", "line\nbreak", "trailing\n", "a\r\nb", "'single'", "\"double\"",
@@ -96,12 +109,10 @@ func main() {
 	var cases []Case
 	add := func(b gen.Base, m *gen.Mutation) {
 		if m == nil {
-			cases = append(cases, Case{Base: b.Name, Doc: b.Tree})
+			cases = append(cases, Case{Base: b.Name, tree: b.Tree})
 			return
 		}
-		doc := gen.Apply(b.Tree, *m)
-		gen.RaiseVersion(doc, []gen.Mutation{*m})
-		cases = append(cases, Case{Base: b.Name, Mutations: []gen.Mutation{*m}, Doc: doc})
+		cases = append(cases, Case{Base: b.Name, Mutations: []gen.Mutation{*m}, tree: b.Tree})
 	}
 	numeric := map[string][]any{
 		"major": {int64(0), int64(-1), int64(9223372036854775807), int64(-9223372036854775808)}, "minor": {int64(9223372036854775807), int64(-9223372036854775808)},
@@ -175,6 +186,7 @@ func main() {
 		r.Fail(&hx.Failure{Sig: "builtin-schema-is-a-no-op", Msg: "the builtin schema accepts {}: nothing can be concluded from it", Case: "{}"})
 	}
 	fail := func(c Case, sig, msg string, act any) {
+		c.Doc = c.doc()
 		r.Fail(&hx.Failure{Sig: sig + ":" + classOf(c), Msg: msg + " [" + classOf(c) + " on " + c.Base + "]", Case: c, Actual: act, Rank: int64(len(c.Base))})
 	}
 	// ---- phase 1: no validator installed; schema verdicts of everything the library accepts
@@ -187,12 +199,11 @@ func main() {
 				fail(*c, "panic", fmt.Sprint("panic: ", p), nil)
 			}
 		}()
-		read, cacheOK, spec := w.readVerdict(c.Doc)
+		read, cacheOK, spec := w.readVerdict(c.doc())
 		c.libAccepts = read && cacheOK
 		if !c.libAccepts {
 			return
 		}
-		c.spec = spec
 		if err := builtin.Validate(spec); err != nil {
 			fail(*c, "schema-rejects-in-memory-spec", "library-valid Spec rejected by the builtin schema: "+firstLine(err.Error()), err.Error())
 		}
@@ -224,13 +235,16 @@ func main() {
 			l.Record(hx.Result{Outcome: "not-library-valid", Nontrivial: false}, nil)
 			return
 		}
-		read, cacheOK, _ := w.readVerdict(c.Doc)
+		read, cacheOK, spec := w.readVerdict(c.doc())
 		if !read || !cacheOK {
 			fail(c, "validator-turns-loadable-spec-into-error", fmt.Sprintf("with the builtin schema installed as validator: ReadSpec ok=%v, cache load ok=%v for a Spec that loads without it", read, cacheOK), nil)
 		}
 		if c.writeAccepts {
 			for _, name := range []string{"out.json", "out.yaml"} {
-				ok, p := w.writeVerdict(c.spec, name)
+				if spec == nil {
+					break
+				}
+				ok, p := w.writeVerdict(spec, name)
 				if !ok {
 					fail(c, "validator-makes-writer-refuse", "WriteSpec refuses with the builtin schema installed a Spec it writes without it", nil)
 					continue
